@@ -241,7 +241,17 @@ void BinaryFileReader::read_faces(Decoder &reader, const TopoChunkHeader &header
                                    valence,
                                    read_heh);
         if (!success) break;
-        mesh_->add_face(std::move(halfedges), options_.topology_check);
+        if (valence == 0) {
+            state_ = ReadState::ErrorEmptyList;
+            error_msg_ = "TOPO chunk: face without halfedges";
+            return;
+        }
+        auto fh = mesh_->add_face(std::move(halfedges), options_.topology_check);
+        if (!fh.is_valid()) {
+            state_ = ReadState::ErrorInvalidFile;
+            error_msg_ = "TOPO chunk: face rejected by the mesh (topology check)";
+            return;
+        }
     };
 
     if (state_ == ReadState::ReadingChunks) {
@@ -288,7 +298,17 @@ void BinaryFileReader::read_cells(Decoder &reader, const TopoChunkHeader &header
                                    valence,
                                    read_hfh);
         if (!success) break;
-        mesh_->add_cell(std::move(halffaces), options_.topology_check);
+        if (valence == 0) {
+            state_ = ReadState::ErrorEmptyList;
+            error_msg_ = "TOPO chunk: cell without halffaces";
+            return;
+        }
+        auto ch = mesh_->add_cell(std::move(halffaces), options_.topology_check);
+        if (!ch.is_valid()) {
+            state_ = ReadState::ErrorInvalidFile;
+            error_msg_ = "TOPO chunk: cell rejected by the mesh (topology check)";
+            return;
+        }
     };
 
     if (state_ == ReadState::ReadingChunks) {
